@@ -31,6 +31,9 @@ def spaces(tier):
             dict(size=1, level=0, cfg='K0', t0=['empty', 'full', 'dir_d_j'], mut='rel', faults='mkdir'),
             dict(size=1, level=2, cfg='K0', t0=['empty', 'dir_d', 'dir_d_e', 'file_d'], mut='none', kw=longp),
             dict(size=2, level=1, cfg='K0', t0=['empty', 'dir_d_j'], mut='none', kw=small, faults='mkdir'),
+            # a component no file can have (embedded NUL): os.mkdir raises ValueError, not OSError, after d was made
+            dict(size=1, level=2, cfg='K0', t0=['empty', 'dir_d'], mut='none',
+                 kw=dict(paths=['d/n\0x/z', 'n\0x/z', 'd/e/n\0x/z'], bf_modes=['ok', 'rb'], sb_modes=[])),
             dict(family='pairs', size=1, level=1, cfg='K0', t0=['empty'], mut='none', faults='mkdir'),
             dict(size=2, level=2, cfg='K0', t0=['empty', 'dir_d'], mut='none',
                  kw=dict(paths=['d/e/z', 'd/e/w', 'd/x'], bf_modes=['ok', 'rb', 'ra', 'nc'], sb_modes=['ok'])),
@@ -110,7 +113,8 @@ def work(ctx, task):
         # incl. over-long components below such a path
         paths = list(gen.U) + ['d/' + LONG + '/z', 'd/e/' + LONG + '/z', 'a/' + LONG + '/z', 'a/q/' + LONG + '/z']
         first = [{'k': 'bf', 'p': p, 'mode': 'ok', 'catch': True, 'ch': []} for p in gen.U]
-        second = [{'k': 'bf', 'p': p, 'mode': m, 'catch': True, 'ch': []} for p in paths for m in ('ok', 'rb')]
+        # (second call: succeeds, raises before writing, raises after writing - the half-written target must go)
+        second = [{'k': 'bf', 'p': p, 'mode': m, 'catch': True, 'ch': []} for p in paths for m in ('ok', 'rb', 'ra')]
         pi = -1
         for a in first:
             for b in second:
